@@ -192,12 +192,15 @@ def plan(tier, seed):
                  ('big-rel', 'release', 'cache_trace', ['gen', str(seed + 2), '16', '500', 'big']),
                  ('forget-rel', 'release', 'cache_trace', ['gen', str(seed + 3), '150', '40', 'forget']),
                  ('churn-rel', 'release', 'cache_trace', ['gen', str(seed + 4), '30', '600', 'churn']),
+                 ('clog-rel', 'release', 'cache_trace', ['gen', '0', '1400', '4', 'clog']),
                  ('exh2-dbg', 'debug', 'cache_trace', ['exhaust', '2', '0', '1']),
                  ('panic-dbg', 'debug', 'panic_trace', [str(seed), '10', '6', '16']),
                  ('panic-rel', 'release', 'panic_trace', [str(seed + 1), '14', '9', '16'])]
     else:
         jobs += [('exh3-h0-rel', 'release', 'cache_trace', ['exhaust', '3', '0', '0']), ('exh3-h1-rel', 'release', 'cache_trace', ['exhaust', '3', '0', '1']),
                  ('exh4-h0-rel', 'release', 'cache_trace', ['exhaust', '4', '1', '0']), ('exh4-h1-dbg', 'debug', 'cache_trace', ['exhaust', '4', '1', '1'])]
+        jobs.append(('clog-rel', 'release', 'cache_trace', ['gen', '0', '4100', '9', 'clog']))
+        jobs.append(('clog-dbg', 'debug', 'cache_trace', ['gen', '0', '4100', '9', 'clog']))
         for i in range(10):
             jobs.append(('mix-rel-%d' % i, 'release', 'cache_trace', ['gen', str(seed * 100 + i), '4000', '80', 'mix']))
         for i in range(4):
